@@ -893,6 +893,40 @@ pub fn run(ctx: &Ctx, replay: Option<&J>) -> i32 {
         }
     }
 
+    // un-parenthesised lambda bodies (the grammar has a separate operator rule for them): every binary
+    // operator admissible there under every layout option on either side, alone, as the right operand of
+    // `where` / `via`, and with a second operator after it
+    {
+        for &op in &ALL_BINOPS {
+            if matches!(op, BinaryOp::Via | BinaryOp::Into | BinaryOp::Where) {
+                continue;
+            }
+            let natural = matches!(op, BinaryOp::NaturalAnd | BinaryOp::NaturalOr);
+            let lefts = options(if natural { Site::NatLeft } else { Site::SymLeft });
+            let rights = options(if natural { Site::NatRight } else { Site::SymRight });
+            let body = T::bin(op, T::id("a"), T::id("b"));
+            let body3 = climb(&[T::id("a"), T::id("b"), T::id("c")], &[op, BinaryOp::NaturalOr]);
+            for l in lefts {
+                for r in rights {
+                    let bt = format!("a{}{}{}b", l, op_text(op), r);
+                    let cases: Vec<(String, T)> = vec![
+                        (format!("x => {}", bt), T::lam1("x", body.clone())),
+                        (format!("xs where x => {}", bt), T::bin(BinaryOp::Where, T::id("xs"), T::lam1("x", body.clone()))),
+                        (format!("xs via (x, i) => {}", bt), T::bin(BinaryOp::Via, T::id("xs"), T::Lam(vec![LArg::Req("x".into()), LArg::Req("i".into())], Box::new(body.clone())))),
+                        (format!("x => {} or c", bt), T::lam1("x", body3.clone())),
+                        (format!("x => {}\n  or c", bt), T::lam1("x", body3.clone())),
+                        (format!("x => {} // note\n  or c", bt), T::lam1("x", body3.clone())),
+                    ];
+                    for (text, want) in cases {
+                        check_text(ctx, "lambda-body-layout", &format!("{} {:?}/{:?}", op_text(op), l, r), &text, &want);
+                        ctx.outcome("lambda-body-layout");
+                        ctx.nontrivial(&text);
+                    }
+                }
+            }
+        }
+    }
+
     // ---- word and symbol spellings evaluate identically
     for (w, s) in [("and", "&&"), ("or", "||")] {
         for a in ["true", "false", "1", "null", "[true, false]", "nope", "(1 + \"a\")"] {
